@@ -971,10 +971,14 @@ class C14(Prop):
             "totals of 250..256 wire bytes, random LDH names and arbitrary bytes, each with and without a default zone; then, for accepted "
             "names, set_raw_name on a record followed by name() (read back). Expected labels are computed from the input text independently. "
             "Non-trivial: non-empty name; distinct = distinct (name, zone).")
-    strength = ("proved (unbounded, for every byte string and zone): an accepted name has labels of at most 62 bytes and at most 253 wire bytes, "
-                "its encoding is the concatenation of the dot-separated labels of the text, each prefixed by its length, followed by the zone or "
-                "a root byte (C14_from_str_spec); empty interior labels, labels over 62 bytes and texts over 253 bytes are rejected "
-                "(C14_rejects). Read-back through set_raw_name/name() is decided by the correspondence.")
+    strength = ("proved (unbounded, for every byte string as text and every optional zone): whatever is accepted is a list of labels (non-empty, "
+                "<= 62 bytes, no dot, no byte above 128) joined by dots with an optional final dot, encoded as each label prefixed by its "
+                "length then the root byte or - without a final dot - the zone, within 253 bytes (C14_from_str_sound); every such list that "
+                "fits is accepted and so encoded (C14_accepts_open, C14_accepts_closed); an empty interior label, a leading dot, 63 bytes "
+                "without a dot and texts over 253 bytes are errors (C14_rejects_empty_label, _leading_dot, _long_label, "
+                "_long_label_after_dot, _long_text); for letter-digit-hyphen-underscore labels the produced wire name is a name of the "
+                "parser's policy with those labels and prints back as the labels joined by dots (C14_ldh_roundtrip). PARTIAL: the read-back "
+                "through a record of a packet (set_raw_name then name()) is decided by the correspondence.")
     assumptions = ["bytes < 256", "the default zone passed in is itself a well-formed wire name (documented precondition)"]
 
     ZONE = [b"example", b"org"]
